@@ -70,6 +70,10 @@ def run(ctx):
             ok = (v == root) if root * root == f2 else abs(v * v - f2) <= 8e-15 * max(f2, 1)
             if not ok: viol(f'C15:frob:def:{name}', f'{name} is not the root of the sum of squared moduli', A, v, f'sqrt({f2})')
         if len({float(v) for v in fro.values()}) != 1: viol('C15:frob:entry-points', 'Frobenius entry points disagree on the same data', A, fro)
+        # same data, other order: every entry point again after the tensor norm has been evaluated; the data must be untouched
+        again = {'matrix_norm(fro)': utils.matrix_norm(An, 'fro'), 'normQ': utils.normQ(An), 'tensor_frobenius_norm': tensor.tensor_frobenius_norm(T), 'normQsparse': utils.normQsparse(*[np.ascontiguousarray(quaternion.as_float_array(An)[..., c]) for c in (0, 1, 2, 3)])}
+        if any(float(again[k2]) != float(fro[k2]) for k2 in again) or not qx.eq(qx.from_np(An), A):
+            viol('C15:frob:entry-points:order', 'Frobenius entry points disagree when evaluated in another order on the same array (or the array was modified by a norm)', A, again, {k2: fro[k2] for k2 in again})
         ea = tensor.tensor_entrywise_abs(T)[..., 0]
         if ea.tolist() != [[float(imod(a)) for a in r] for r in A]: viol('C15:entrywise_abs', 'tensor_entrywise_abs is not the modulus', A)
         # norm axioms on the implementation (moduli are integers, so sums are exact; tiny slack for sqrt in Frobenius)
